@@ -1223,6 +1223,25 @@ def switch_edges(fn, bi):
     return d
 
 
+def as_remainder(t):
+    """(x, m) when the tree computes x mod m: `x % m`, `x - (x / m) * m`, `x - m * (x / m)`; else None"""
+    def sc(u):
+        u = strip(u)
+        while u[0] == "cast":
+            u = strip(u[2])
+        return u
+    t = sc(t)
+    if t[0] == "binop" and t[1] == "Rem":
+        return sc(t[2]), sc(t[3])
+    if t[0] == "binop" and t[1] == "Sub":
+        x, prod = sc(t[2]), sc(t[3])
+        if prod[0] == "binop" and prod[1] == "Mul":
+            for q, m in ((sc(prod[2]), sc(prod[3])), (sc(prod[3]), sc(prod[2]))):
+                if q[0] == "binop" and q[1] == "Div" and sc(q[2]) == x and sc(q[3]) == m:
+                    return x, m
+    return None
+
+
 def order_test(fn, R, bi):
     """switch block testing an order relation: returns (a, op, b, true succ, false succ) with op in Lt|Le|Gt|Ge for
     both `a < b` binops and PartialOrd::lt(a, b) style calls (None otherwise)"""
